@@ -139,6 +139,14 @@ func doMatchIn(expression *grammar.MatchExpression, value reflect.Value) (bool, 
 			// type/kind and rederiving the match value.
 			for i := 0; i < value.Len(); i++ {
 				item := value.Index(i).Elem()
+				// follow every pointer level; a nil element (JSON null) or a
+				// nil pointer is not equal to any literal
+				for item.Kind() == reflect.Ptr && !item.IsNil() {
+					item = item.Elem()
+				}
+				if !item.IsValid() || item.Kind() == reflect.Ptr {
+					continue
+				}
 				itemType := derefType(item.Type())
 				kind := itemType.Kind()
 				// We need to special case errors here. The reason is that in an
@@ -183,6 +191,14 @@ func doMatchIn(expression *grammar.MatchExpression, value reflect.Value) (bool, 
 			}
 			for i := 0; i < value.Len(); i++ {
 				item := value.Index(i)
+				// follow every pointer level; a nil pointer is not equal to
+				// any literal
+				for item.Kind() == reflect.Ptr && !item.IsNil() {
+					item = item.Elem()
+				}
+				if item.Kind() == reflect.Ptr {
+					continue
+				}
 				// the value will be the correct type as we verified the itemType
 				if eqFn(matchValue, reflect.Indirect(item)) {
 					return true, nil
